@@ -24,6 +24,8 @@ def main():
     r = sh(f"git -C /repo worktree add --detach {wt} HEAD")
     if r.returncode != 0:
         print(r.stderr); sys.exit(2)
+    # contract files: use /repo's working-tree versions (they may be newer than HEAD)
+    sh(f"cd /repo && find . -name verif_contracts.go | while read f; do mkdir -p {wt}/$(dirname $f); cp $f {wt}/$f; done")
     bad = 0
     try:
         for m in muts:
@@ -49,7 +51,6 @@ def main():
                 if os.environ.get("VERBOSE"): print(r.stdout[-2000:], r.stderr[-2000:])
     finally:
         sh(f"git -C /repo worktree remove --force {wt}")
-        sh("git -C /repo checkout -- . 2>/dev/null")
         # evidence/replays written during selftest describe mutants, not /repo: restore by re-running is the caller's job
     print("selftest:", "PASS" if bad == 0 else f"{bad} problem(s)")
     sys.exit(1 if bad else 0)
